@@ -140,13 +140,13 @@ def target_of_block(block):
     return None
 
 
-def run_multi(targets, threads, fmt='text', extra=(), gate_order=None, monitors=None, timeout=120, tmo=None, hashseed='0'):
+def run_multi(targets, threads, fmt='text', extra=(), gate_order=None, monitors=None, timeout=120, tmo=None, hashseed='0', file_lines=None):
     """targets: [Target].  Returns dict(run=Run, blocks={spec: text}|None, docs={spec: doc}|None, raw_blocks=[...])."""
     d = runner.scratch_dir('multi')
     try:
         tf = os.path.join(d, 'targets.txt')
         with open(tf, 'w') as f:
-            f.write(''.join(t.spec + '\n' for t in targets))
+            f.write(''.join(l + '\n' for l in (file_lines if file_lines is not None else [t.spec for t in targets])))
         args = ['--skip-rate-test', '-T', tf, '--threads', str(threads)] + (['-j'] if fmt == 'json' else ['-n']) + list(extra)
         if tmo is not None:
             args += ['-t', str(tmo)]
